@@ -1,10 +1,36 @@
-(* Properties_C10.v — obligations of property C10.  Contains only theorem statements closed by
-   `exact <lemma>` and Print Assumptions. *)
-Require Import ObsRun.
+(* Properties_C10.v — obligations of property C10 (the AF list is exactly the set of valid FM
+   codes received in 0A). *)
+Require Import ObsRun Lemmas_AfHist.
 Local Open Scope Z_scope.
 
-(* non-vacuity: the observer of C10 is evaluated (and holds) along a run of the model that
-   touches every group kind *)
+(* For EVERY history, after every call, the 26-byte bitmap the AF getter returns is
+     bitmap_of (fun v => thr <= number of receptions of v since the last reset)
+   with thr = 1 in normal mode and thr = 2 under the extended check, where
+   - the receptions (af_rx) are both bytes of block C of every group with B/4096 = 0, version bit 0,
+     error-free B and C, whose first byte is not 250 (a pair starting with 250 is skipped entirely;
+     0B and every other group contribute nothing);
+   - bitmap_of sets, for each code 1 <= v <= 204 satisfying the predicate, bit 2^(7 - v mod 8) of byte
+     v / 8, and nothing else (codes 0 and 205..255 never add an entry).
+   Since af_rx only grows between resets, so does the list. *)
+Theorem C10_af_set : forall conv lut h s, reach conv lut h s ->
+  (no_ext h = true -> d_af (used s) = bitmap_of (fun v => 1 <=? count_z v (af_rx h)))
+  /\ (ext_scope h = true -> d_af (used s) = bitmap_of (fun v => 2 <=? count_z v (af_rx h))).
+Proof. exact C10_af_set_holds. Qed.
+Print Assumptions C10_af_set.
+
+(* the bit operations of the sources against the membership reading, all 256 byte values x 8 x 8
+   bit positions (kernel sweep): test, set, and "a byte is the sum of its bits" *)
+Theorem C10_bitmap_layout : forall a p v, AfInv a p -> 0 <= v < 256 ->
+  af_get a v = (af_ok v && p v)
+  /\ exists a', af_set a v = Some (a', af_ok v) /\ AfInv a' (fun w => p w || (w =? v)).
+Proof. intros a p v I Hv. split; [apply af_get_spec; assumption|apply af_set_spec; assumption]. Qed.
+Print Assumptions C10_bitmap_layout.
+
+(* PARTIAL: "every addition triggers the AF callback exactly once with that frequency in kHz" is
+   part of obs_C10 / obs_C04 (af_events_ok), evaluated on model and library, not proved. *)
 Example C10_scenario : check_run_u (observer_u 10) scenario = true.
 Proof. vm_compute. reflexivity. Qed.
-Print Assumptions C10_scenario.
+Example C10_marker_and_range :
+  let s := run_u [G 4096 0 64001 8224 0 0 0 0; G 4096 0 205 8224 0 0 0 0; G 4096 2048 257 8224 0 0 0 0] in
+  d_af (used s) = af_empty.
+Proof. vm_compute. reflexivity. Qed.
